@@ -84,27 +84,30 @@ def applyAct (c : Core) : Act → Core × Nat × Nat
 def applyActs : Core → List Act → Core × Nat × Nat
   | c, [] => (c, 0, 0)
   | c, a :: r =>
-    let (c1, l1, d1) := applyAct c a
-    let (c2, l2, d2) := applyActs c1 r
-    (c2, l1 + l2, d1 + d2)
+    let x := applyAct c a
+    let y := applyActs x.1 r
+    (y.1, x.2.1 + y.2.1, x.2.2 + y.2.2)
+
+def applyGroup (c : Core) (g : List Cond × List Act) : Core × Nat × Nat :=
+  if g.1.all (Cond.holds c) then applyActs c g.2 else (c, 0, 0)
 
 def applyGroups : Core → List (List Cond × List Act) → Core × Nat × Nat
   | c, [] => (c, 0, 0)
   | c, g :: r =>
-    let (c1, l1, d1) := if g.1.all (Cond.holds c) then applyActs c g.2 else (c, 0, 0)
-    let (c2, l2, d2) := applyGroups c1 r
-    (c2, l1 + l2, d1 + d2)
+    let x := applyGroup c g
+    let y := applyGroups x.1 r
+    (y.1, x.2.1 + y.2.1, x.2.2 + y.2.2)
 
 /-- one instruction on the fields: new fields, leaks, dumps, and how many following instructions to skip -/
 def execCore (c : Core) : Instr → Core × Nat × Nat × Nat
-  | .act a => let (c', l, d) := applyAct c a; (c', l, d, 0)
+  | .act a => ((applyAct c a).1, (applyAct c a).2.1, (applyAct c a).2.2, 0)
   | .test conds k => (c, 0, 0, if conds.all (Cond.holds c) then 0 else k)
-  | .atomic gs => let (c', l, d) := applyGroups c gs; (c', l, d, 0)
+  | .atomic gs => ((applyGroups c gs).1, (applyGroups c gs).2.1, (applyGroups c gs).2.2, 0)
 
 /-- one instruction: new shared state and the instructions that remain for this thread -/
 def execInstr (s : Sh) (i : Instr) (rest : List Instr) : Sh × List Instr :=
-  let (c', l, d, k) := execCore s.core i
-  ({ core := c', leaked := s.leaked + l, dumps := s.dumps + d }, rest.drop k)
+  let x := execCore s.core i
+  ({ core := x.1, leaked := s.leaked + x.2.1, dumps := s.dumps + x.2.2.1 }, rest.drop x.2.2.2)
 
 structure St where
   sh    : Sh
@@ -128,14 +131,14 @@ def setNth {α} : List α → Nat → α → List α
 def step (P : Prog) (s : St) : Choice → St
   | .main =>
     match s.mainC with
-    | i :: rest => let (sh, rest') := execInstr s.sh i rest; { s with sh := sh, mainC := rest' }
+    | i :: rest => { s with sh := (execInstr s.sh i rest).1, mainC := (execInstr s.sh i rest).2 }
     | [] =>
       match s.mainS with
-      | i :: rest => let (sh, rest') := execInstr s.sh i rest; { s with sh := sh, mainS := rest' }
+      | i :: rest => { s with sh := (execInstr s.sh i rest).1, mainS := (execInstr s.sh i rest).2 }
       | [] => s
   | .run k =>
     match s.runs[k]? with
-    | some (i :: rest) => let (sh, rest') := execInstr s.sh i rest; { s with sh := sh, runs := setNth s.runs k rest' }
+    | some (i :: rest) => { s with sh := (execInstr s.sh i rest).1, runs := setNth s.runs k (execInstr s.sh i rest).2 }
     | _ => s
   | .fireCur =>
     if s.sh.core.cur = .armed then { s with sh := { s.sh with core := { s.sh.core with cur := .dead } }, runs := s.runs ++ [P.run] } else s
